@@ -20,7 +20,7 @@ import (
 func init() {
 	core.Register(&core.Property{
 		ID:   "C18",
-		Rule: "for every command payload type of the four application-layer packages (enumerated through the packages' own CID registries, both directions): encode-first generator = field tuples inside the TS003-TS006 bit widths (every value of fields <= 8 bits wide in turn, boundary + seeded values for wider ones, the others seeded in range); decode-first generator = all 256 first bytes x seeded tails of length 0..32. Oracles: MarshalBinary under recover() never panics on a well-formed value, len(bytes) == Size(), decode(encode(v)) == v, decoding encode(v) followed by arbitrary trailing bytes gives v with the same Size(), every decoded value re-encodes and decodes to itself; seeded sequences of 1..6 commands per package and direction must survive Commands.MarshalBinary -> Commands.UnmarshalBinary (DataFragment only in last position). Multicast keys are compared with single-block AES derivations of TS005. Distinct = (package, payload type, field, value class) / (package, direction, sequence shape).",
+		Rule: "for every command payload type of the four application-layer packages (enumerated through the packages' own CID registries, both directions): encode-first generator = field tuples inside the TS003-TS006 bit widths (every value of fields <= 8 bits wide in turn, boundary + seeded values for wider ones, the others seeded in range); decode-first generator = all 256 first bytes x seeded tails of length 0..32. Oracles: MarshalBinary under recover() never panics on a well-formed value, len(bytes) == Size(), decode(encode(v)) == v, decoding encode(v) followed by arbitrary trailing bytes gives v with the same Size(), every decoded value re-encodes and decodes to itself; seeded sequences of 1..6 (one in five: 7..66) commands per package and direction must survive Commands.MarshalBinary -> Commands.UnmarshalBinary (DataFragment only in last position). Multicast keys are compared with single-block AES derivations of TS005. Distinct = (package, payload type, field, value class) / (package, direction, sequence shape).",
 		Assumptions: []string{
 			"bit widths: TokenReq/TokenAns/Period 4, NbTransmissions 3, McGroupID 2, NbTotalGroups 3, class-C TimeOut 4, class-B TimeOut 4 and Periodicity 3, DLFrequency/TimeToStart/Countdown 24 (frequency in 100 Hz), FragIndex 2, BlockAckDelay/FragmentationMatrix 3, N and NbFragReceived 14, UpImageStatus 2, flags 1",
 			"no byte-layout claim is made for these packages (the property makes none); DataFragment length is not self-describing on the wire and can only be last in a sequence",
@@ -390,6 +390,9 @@ func c18Stream(c *core.Ctx, r *core.RNG, types []appType) {
 		}
 	}
 	n := 1 + r.Intn(6)
+	if r.Chance(1, 5) {
+		n = 7 + r.Intn(60) // long sequences: anything with a fixed-size internal buffer or a count field shows only here
+	}
 	var cmds []appCmd
 	shape := ""
 	for i := 0; i < n; i++ {
